@@ -209,18 +209,29 @@ impl<'l> CelCompiler<'l> {
             let false_clause_bytecode = false_clause_node.into_bytecode();
 
             let after_true_clause = self.new_label();
+            let false_clause_label = self.new_label();
             let end_label = self.new_label();
 
+            // The condition goes through TEST like the operands of `||` and
+            // `&&`, so any value selects a branch by its truthiness. TEST
+            // keeps an error as it is; a copy of the tested condition stays
+            // on the stack so that a failed condition becomes the result of
+            // the whole expression instead of selecting the false clause.
             CompiledProg {
                 inner: NodeValue::Bytecode(
                     expr_node
                         .into_bytecode()
                         .into_iter()
                         .chain(
-                            [PreResolvedCodePoint::JmpCond {
-                                when: JmpWhen::False,
-                                label: after_true_clause,
-                            }]
+                            [
+                                PreResolvedCodePoint::Bytecode(ByteCode::Test),
+                                PreResolvedCodePoint::Bytecode(ByteCode::Dup),
+                                PreResolvedCodePoint::JmpCond {
+                                    when: JmpWhen::False,
+                                    label: after_true_clause,
+                                },
+                                PreResolvedCodePoint::Bytecode(ByteCode::Pop),
+                            ]
                             .into_iter(),
                         )
                         .chain(true_clause_bytecode.into_iter())
@@ -228,6 +239,16 @@ impl<'l> CelCompiler<'l> {
                             [
                                 PreResolvedCodePoint::Jmp { label: end_label },
                                 PreResolvedCodePoint::Label(after_true_clause),
+                                // false or an error: `!false` is true, `!error` is the error
+                                PreResolvedCodePoint::Bytecode(ByteCode::Dup),
+                                PreResolvedCodePoint::Bytecode(ByteCode::Not),
+                                PreResolvedCodePoint::JmpCond {
+                                    when: JmpWhen::True,
+                                    label: false_clause_label,
+                                },
+                                PreResolvedCodePoint::Jmp { label: end_label },
+                                PreResolvedCodePoint::Label(false_clause_label),
+                                PreResolvedCodePoint::Bytecode(ByteCode::Pop),
                             ]
                             .into_iter(),
                         )
